@@ -20,6 +20,16 @@ CHECKS = {
         "technique": "Coq proof over gate/registry model + regenerated operator table re-proved by vm_compute + exhaustive gate enumeration judged in Coq",
     },
 }
+CHECKS["C14"] = {
+    "text": "Theorems (axiom-free, any element type, any rank, any positive extents): the model of MultidirectionalBroadcast/UnidirectionalBroadcast (rank equalisation by prepending 1s, per-axis Repeat loop from the last axis) EQUALS the ONNX specification: Ok exactly when the shapes are broadcast-compatible (resp. broadcast to the first operand's shape), both results then have the broadcast shape and every element is the source element at the projected index (stretched axes pinned to 0, first operand returned as is for unidirectional); otherwise an error. Tie: both helpers are called on all ordered pairs of shapes of rank 0..3 (quick; 0..4 thorough) with extents 1..3 plus seeded random larger shapes, index-coded data, all 14 dtypes; results read element by element, sources re-read after the call; judged in Coq against S and M.",
+    "note": "Trusted: Coq kernel + vm_compute; gorgonia Repeat/Reshape/Clone are modelled (G/Repeat.v, G/Reshape.v) and validated only through these cases; harness and driver. Non-modification of the sources is observed, not proved of the Go code.",
+    "technique": "Coq proof (model = ONNX broadcast spec for all ranks) + bounded-exhaustive correspondence check judged in Coq",
+}
+CHECKS["C07"] = {
+    "text": "Model of reshape.go/flatten.go/squeeze.go/unsqueeze.go/shape.go (as repaired by three fix: commits) and an ONNX specification written independently; theorem c07_model_refines_spec: for every input of any rank/dtype and every request the model's outcome is the one ONNX prescribes (same payload in the same order, ONNX shape; error for element-count mismatch, two -1, entries < -1, duplicate or out-of-range axes, squeezing an extent != 1), outside one known-finding class (Shape of a rank-0 tensor). Tie: bounded-exhaustive cases (all shapes rank 0..3(4) extents 1..3 x all axes lists x all targets) executed on the implementation and judged in Coq against S and M.",
+    "note": "Trusted: Coq kernel + vm_compute; gorgonia Reshape on a clone modelled as element-count check + panic on negative extent; harness and driver.",
+    "technique": "Coq proof (model refines ONNX shape-operator spec) + bounded-exhaustive correspondence check judged in Coq",
+}
 
 _PENDING = "check under construction in this round; not yet claimed"
-NOT_APPLICABLE = {p: _PENDING for p in ["C01", "C02", "C03", "C04", "C05", "C06", "C07", "C08", "C09", "C10", "C11", "C12", "C13", "C14", "C16", "C17", "C18"]}
+NOT_APPLICABLE = {p: _PENDING for p in ["C01", "C02", "C03", "C04", "C05", "C06", "C08", "C09", "C10", "C11", "C12", "C13", "C16", "C17", "C18"]}
